@@ -64,14 +64,17 @@ CLAIMS = {
              'first, private names never > call mapping > defaults), initvars_lookup / lookup_precedence_full (construction '
              'keywords > construction mapping, private keys dropped), underscore_not_from_client, subtemplate_sees_caller / '
              'subtemplate_lookup (own variables and defaults on top of the caller\'s current namespace, popped afterwards), '
-             'block_binding_shadows / block_binding_transparent / block_bindings_end (from C08), tag_lookup_calls / '
+             'block_binding_shadows / block_binding_transparent / block_bindings_end (from C08), frameGet_consistent / '
+             'lookup_first_offer_consistent / block_bindings_end_real / section_bindings_end_real (on the namespace as it '
+             'really is after any block - filled attribute caches included, via the cache-consistency invariant '
+             'Lemmas.Cache.all_cons of all 15 interpreter functions - every name resolves exactly as before the block), tag_lookup_calls / '
              'tag_lookup_renders_template / expr_lookup_does_not_call. Correspondence: results and call traces; oracle: winner '
              'computed from the documented order over all 128 source subsets x {plain, callable, template} (+ private names), '
              'scope-stack evaluator over random nestings of let/with/in/if/try-except with probes before/inside/after, '
              'name-vs-expression forms, re-entered templates under shadowing blocks',
-        note='Trusted: Lean kernel; interpreter model validated (not verified) against the real classes. Partial: lookups are '
-             'characterised for frames with an empty attribute cache (as created); block_bindings_end is stated on the '
-             'cache-erased namespace (cache entries only repeat attribute values, which the correspondence run confirms)',
+        note='Trusted: Lean kernel; interpreter model validated (not verified) against the real classes. Lookups are characterised '
+             'without a security guard (with a guard installed, C05 covers them); sequence-variable frames of dtml-in are '
+             'characterised in C10, not here',
         technique='Lean 4 proof (induction over the frame list, reuse of the C08 invariant) + model/implementation '
                   'correspondence + precedence/scope oracle',
         ref='DESIGN.md §5 C02'),
